@@ -181,6 +181,9 @@ func init() {
 			return Val{T: resT, Term: app(op, nanos(c, c.termOf(args[0])), nanos(c, c.termOf(args[1])))}
 		}
 	}
+	externalModels["(time.Duration).Nanoseconds"] = func(fr *Frame, callee *ssa.Function, args []Val, resT types.Type, st *State, reach string, pos token.Pos) Val {
+		return Val{T: resT, Term: fr.c.termOf(args[0])} // int64(d)
+	}
 	externalModels["(time.Time).After"] = cmpTime(">")
 	externalModels["(time.Time).Before"] = cmpTime("<")
 	// --- math ---------------------------------------------------------------------------------
